@@ -27,7 +27,9 @@ Judge(e) ==
          \* e.i: instance, e.callfmt: per-call format ("" = none), e.used / e.usedindent: observed in the output
          LET cfg == w[e.i]
              fmt == IF e.callfmt # "" THEN e.callfmt ELSE cfg.format IN
-           (IF fmt = "" THEN (IF e.used = "error" THEN {} ELSE {"config.call.used"})
+           \* "spdx22" is a format of the library that no serializer is registered for: the format in force is still the one
+           \* given (instance or call), so the write fails rather than being served by another format
+           (IF fmt \in {"", "spdx22"} THEN (IF e.used = "error" THEN {} ELSE {"config.call.used"})
             ELSE IF e.used # fmt THEN {"config.call.used"}
             ELSE IF fmt = "spdx23" /\ e.callfmt = "" /\ "shared" \notin DOMAIN e /\ e.usedindent # cfg.indent THEN {"config.call.indent"} ELSE {})
            \cup (IF e.insts = w /\ e.rinsts = r THEN {} ELSE {"config.call.persist"})
